@@ -98,3 +98,27 @@ func VerifC15HypertextCache() {
 	verifrt.Assert(err == nil && m2.cachedWidth == 80 && m2.cached == ref80, "constructor-establishes-cache-invariant")
 	verifrt.Reach("end")
 }
+
+// VerifC15HypertextCacheReal: the cache lemma on the real renderer.
+func VerifC15HypertextCacheReal() {
+	var tree []*html.Node
+	switch verifrt.Choice("doc", 3) {
+	case 0:
+		tree = []*html.Node{vText("\n"), vEl("p", nil, vText("alpha beta gamma")), vText("\n\n")}
+	case 1:
+		tree = []*html.Node{vEl("blockquote", nil, vEl("p", nil, vText("quoted words here"))), vEl("hr", nil)}
+	default:
+		tree = []*html.Node{vEl("ul", nil, vEl("li", nil, vText("one two")), vEl("li", nil, vText("three")))}
+	}
+	maxw := verifrt.Param("maxw", 12)
+	cw := verifrt.Int("cachedWidth", 1, maxw)
+	pre, _ := renderWithLinks(tree, cw)
+	m := &Markup{tree: tree, cached: pre, cachedWidth: cw}
+	for i := 0; i < verifrt.Param("calls", 2); i++ {
+		w := verifrt.Int("w", 1, maxw)
+		got := m.Render(w)
+		ref, _ := renderWithLinks(tree, w)
+		verifrt.Assert(got == ref, "render-equals-cache-free-rendering")
+	}
+	verifrt.Reach("end")
+}
